@@ -20,6 +20,7 @@ C10 `a, b = x, y`               ->  `a = x; b = y`              (plain name targ
 C11 `MappingProxyType({..})`     ->  `{..}` ;  `frozenset({..})` / `frozenset([..])` -> `{..}`
 C12 (whole program, nslsa/optfold.py) an optional parameter added by a change that no call site uses is its default; so is the field it is stored in
 C13 `_NAME = "literal"` at module level (ALL_CAPS, bound once in the file, a string or a number): reads of `_NAME` in that file are the literal
+C13b the same for a private class-level `_NAME = <int/str literal>` never stored through an attribute: `self._NAME` inside the class is the literal
 """
 from __future__ import annotations
 
@@ -394,6 +395,42 @@ def canonicalise(tree: ast.Module, rel: str = None) -> ast.Module:
                 return n
 
         tree = _Named().visit(tree)
+    # C13b  a class-level `_NAME = <int or str literal>` (private, ALL_CAPS), bound in exactly one class body of the file and
+    # never stored through an attribute anywhere in the file: `self._NAME` / `cls._NAME` / `Class._NAME` read inside that
+    # class is the literal (`_LEFT_INDEX = 0`; `self.children[self._LEFT_INDEX]`)
+    cbind, stored = {}, set()
+    for n in ast.walk(tree):
+        if isinstance(n, ast.Attribute) and not isinstance(n.ctx, ast.Load):
+            stored.add(n.attr)
+        elif isinstance(n, ast.ClassDef):
+            for st in n.body:
+                if isinstance(st, ast.Assign):
+                    for t_ in st.targets:
+                        if isinstance(t_, ast.Name):
+                            cbind.setdefault(t_.id, []).append((n, st))
+                elif isinstance(st, ast.AnnAssign) and isinstance(st.target, ast.Name):
+                    cbind.setdefault(st.target.id, []).append((n, st))
+    for nm_, sites in cbind.items():
+        if len(sites) != 1 or nm_ in stored or counts.get(nm_) != 1 or not nm_.startswith("_") or nm_.startswith("__") \
+                or nm_.upper() != nm_ or not nm_.lstrip("_")[:1].isalpha():
+            continue
+        cls_, st = sites[0]
+        if not (isinstance(st, ast.Assign) and len(st.targets) == 1 and isinstance(st.value, ast.Constant)
+                and isinstance(st.value.value, (str, int)) and not isinstance(st.value.value, bool)):
+            continue
+        val_ = st.value.value
+
+        class _ClsNamed(ast.NodeTransformer):
+            def visit_Attribute(self, n):
+                self.generic_visit(n)
+                if isinstance(n.ctx, ast.Load) and n.attr == nm_ and isinstance(n.value, ast.Name) and n.value.id in ("self", "cls", cls_.name):
+                    return ast.copy_location(ast.Constant(val_), n)
+                return n
+
+        for i_, m_ in enumerate(cls_.body):
+            if isinstance(m_, (ast.FunctionDef, ast.AsyncFunctionDef)):
+                cls_.body[i_] = _ClsNamed().visit(m_)
+        cls_.body = [m_ for m_ in cls_.body if m_ is not st] or [ast.Pass()]
     tree = cn.visit(tree)
     ast.fix_missing_locations(tree)
     return tree
